@@ -22,6 +22,8 @@ SITE = {"begin": "inplace.begin", "errReturn": "inplace.errReturn", "tempCreated
         "streamDone": "inplace.streamDone", "wrapperClosed": "inplace.wrapperClosed", "closed": "inplace.closed",
         "renamed": "inplace.renamed", "chmodded": "inplace.chmodded"}
 RSITE = {v: k for k, v in SITE.items()}
+WRITEFAIL_PAD = 30000            # two such records exceed the limit below several times over
+WRITEFAIL_LIMIT_BLOCKS = 32
 FORMATS = {
     "dkvp": {"flags": [], "rec": lambda i: "i=%d\n" % i, "head": "", "ext": "dkvp"},
     "csv": {"flags": ["--csv"], "rec": lambda i: "%d\n" % i, "head": "i\n", "ext": "csv"},
@@ -43,6 +45,13 @@ def file_plan(sc, fmt):
         if kind == "abort":
             ids.append(66)
         body = F["head"] + "".join(F["rec"](i) for i in ids)
+        if kind == "writefail":
+            # records too big for the file size limit the command runs under (render): the temp file cannot take them
+            pad = "p" * WRITEFAIL_PAD
+            body = {"dkvp": "".join("i=%d,pad=%s\n" % (i, pad) for i in ids),
+                    "csv": "i,pad\n" + "".join("%d,%s\n" % (i, pad) for i in ids),
+                    "tsv": "i\tpad\n" + "".join("%d\t%s\n" % (i, pad) for i in ids),
+                    "json": "".join('{"i": %d, "pad": "%s"}\n' % (i, pad) for i in ids)}[fmt]
         if kind == "streamerr" and fmt in ("csv", "tsv") and f % 2 == 0:
             # malformed input instead of a DSL error: a ragged last row
             body = body[:-len(F["rec"](13))] + ("13,extra\n" if fmt == "csv" else "13\textra\n")
@@ -76,10 +85,15 @@ def render(mlr, sc, fmt, crash):
     case = {"argv": argv, "files_b64": files_b64, "modes": modes, "env": env, "collect": True, "b64": True,
             "timeout_ms": 15000}
     imm = [p["dir"] for p in plan if p["kind"] == "tempfail"]
-    if imm:
+    limited = any(p["kind"] == "writefail" for p in plan)
+    if imm or limited:
         import shlex
         cmd = " ".join(shlex.quote(a) for a in argv)
-        case["shell"] = "chattr +i %s; %s; rc=$?; chattr -i %s; exit $rc" % (" ".join(imm), cmd, " ".join(imm))
+        if limited:       # (sh counts 512-byte blocks: 16 KiB, far above every other file and the hook log)
+            cmd = "(ulimit -f %d; exec %s)" % (WRITEFAIL_LIMIT_BLOCKS, cmd)
+        if imm:
+            cmd = "chattr +i %s; %s; rc=$?; chattr -i %s; exit $rc" % (" ".join(imm), cmd, " ".join(imm))
+        case["shell"] = cmd
     return case, plan
 
 
